@@ -93,6 +93,14 @@ fn near_inputs(d: &FmtDesc, t: &Triple) -> Vec<Vec<u8>> {
                 s[k] = sub;
                 out.push(s);
             }
+            // every byte at Hamming distance 1 from the letter or from its other-case form
+            for bit in 0..8 {
+                for base in [w[k], w[k] ^ 0x20] {
+                    let mut s = w.to_vec();
+                    s[k] = base ^ (1 << bit);
+                    out.push(s);
+                }
+            }
             // separator (or '_' when the format has none) inserted at every position
             let sep = if d.sep != 0 { d.sep } else { b'_' };
             let mut s = w.to_vec();
@@ -217,6 +225,10 @@ impl<'a> Ck<'a> {
     }
 }
 
+fn idx0(n: usize) -> Vec<usize> {
+    (0..n).collect()
+}
+
 fn numeric_only_is_finite(_body: &[u8]) -> bool {
     false
 }
@@ -334,6 +346,27 @@ fn main() {
             }
             c.parse_case::<f64>(f, f.f64, t, j, &o, &s, false);
             c.parse_case::<f32>(f, f.f32, t, j, &o, &s, false);
+        }
+        c.done();
+    });
+    // BYTESUB: every byte value at every position of the default special strings, every format
+    par_items(&idx0(cat.len()), cli.threads, |_, &i| {
+        let f = &cat[i];
+        let t = &ts[0];
+        let o = ParseFloatOptions::builder().nan_string(t.nan).inf_string(t.inf).infinity_string(t.infinity).build().unwrap();
+        let mut c = Ck { rep: &rep, fam: Fam::new(&rep, "C15:BYTESUB") };
+        for w in [t.nan, t.inf, t.infinity].iter().flatten() {
+            for k in 0..w.len() {
+                for b in 0..=255u8 {
+                    for sign in [&b""[..], b"+", b"-"] {
+                        let mut s = sign.to_vec();
+                        s.extend_from_slice(w);
+                        s[sign.len() + k] = b;
+                        c.parse_case::<f64>(f, f.f64, t, 0, &o, &s, false);
+                        c.parse_case::<f32>(f, f.f32, t, 0, &o, &s, false);
+                    }
+                }
+            }
         }
         c.done();
     });
